@@ -550,10 +550,18 @@ fn gen_table(r: &mut Lcg, depth: u32, tok: &mut u32) -> String {
     // D15; every cell with content is at least as wide as its colspan, which keeps clear of D8); other columns may be empty in every
     // row or be covered by spanning cells only
     for c in 0..cols { if col_needs[c] && !col_has_single[c] { *tok += 1; body.push((0..cols).map(|k| (1, if k == c { format!("f{}", tok) } else { String::new() })).collect()); col_has_single[c] = true; } }
-    for row in body {
+    // row groups: none / thead + tbody / tbody only / thead + tbody + tfoot (rendered as plain rows, in source order)
+    let sect = r.below(5);
+    let nrows = body.len();
+    for (ri, row) in body.into_iter().enumerate() {
+        let cell = if (sect == 1 || sect == 3) && ri == 0 { "th" } else { "td" };
+        if ri == 0 { match sect { 1 | 3 => s.push_str("<thead>"), 2 => s.push_str("<tbody>"), _ => {} } }
+        if ri == 1 && (sect == 1 || sect == 3) { s.push_str("<tbody>"); }
+        if sect == 3 && nrows >= 3 && ri == nrows - 1 { s.push_str("</tbody><tfoot>"); }
         s.push_str("<tr>");
-        for (span, content) in row { if span > 1 { s.push_str(&format!("<td colspan={}>{}</td>", span, content)); } else { s.push_str(&format!("<td>{}</td>", content)); } }
+        for (span, content) in row { if span > 1 { s.push_str(&format!("<{} colspan={}>{}</{}>", cell, span, content, cell)); } else { s.push_str(&format!("<{}>{}</{}>", cell, content, cell)); } }
         s.push_str("</tr>");
+        if ri == 0 && (sect == 1 || sect == 3) { s.push_str("</thead>"); }
     }
     s.push_str("</table>");
     s
@@ -575,7 +583,7 @@ fn columns(l: &str) -> Vec<char> {
 pub fn bnd_tables() {
     let (ntab, maxw) = if thorough() { (2500u32, 50usize) } else { (500u32, 30usize) };
     let mut rep = Report::new("bnd_tables", &format!("{} seeded regular tables (1..3 rows plus filler rows, 1..3 columns, colspan 2 tiling the grid, cells empty/short/two words/long/wide characters/two lines/many words, \
-        one level of nested tables, columns may be empty in every row unless a multi-column cell with other columns spans them; 4 fixed tables with empty multi-column cells over all-empty columns), widths 1..={}; plain decorator with borders: \
+        one level of nested tables, rows optionally grouped in thead (th cells) / tbody / tfoot, columns may be empty in every row unless a multi-column cell with other columns spans them; 4 fixed tables with empty multi-column cells over all-empty columns), widths 1..={}; plain decorator with borders: \
         no panic; lines within the width (C02); the non-space characters of all cells are exactly the non-border characters of the output (C03, C06); \
         side-by-side layout: equal line widths, first and last line are rules, every rule character matches the bars directly above and below it (C05); \
         allowing width overflow does not change a rendering that succeeds (C11)", ntab, maxw));
@@ -622,6 +630,110 @@ pub fn bnd_tables() {
                     let want_ch = match (above, below) { (true, true) => '\u{253c}', (true, false) => '\u{2534}', (false, true) => '\u{252c}', (false, false) => '\u{2500}' };
                     if ch != want_ch { rep.found(&input, &format!("line {} column {}: {:?} but bar above={} below={}; output {:?}", li, i, ch, above, below, out)); break 'outer; }
                 }
+            }
+        }
+    }
+    rep.finish();
+}
+
+// ------------------------------------------------------------------------------------------------------------------------------
+// C06: every cell's text lies between the bars of the columns it spans, on the lines of its row.
+pub fn c06_positions() {
+    let ntab = if thorough() { 1500u32 } else { 300u32 };
+    let mut rep = Report::new("c06_positions", &format!("{} seeded tables of 1..3 rows x 1..4 columns, colspans tiling the grid, every column holding a one-column cell with text in some row, a unique token per cell         (plus optional extra words), widths 6..=40; plain decorator, side-by-side layouts only: the bar positions of all rows are the same column boundaries; the token of cell (r, c..c+span) occurs only on lines of row band r         and entirely between boundary c-1 and boundary c+span-1; tokens of a row appear left to right in source order", ntab));
+    let mut r = Lcg(0x510e527fade682d1 ^ seed());
+    for _ in 0..ntab {
+        let rows = 1 + r.below(3) as usize; let cols = 1 + r.below(4) as usize;
+        // cells: (row, start col, span, token, html)
+        let mut cells: Vec<(usize, usize, usize, String)> = vec![];
+        let mut html = String::from("<table>");
+        let mut single = vec![false; cols];
+        for ri in 0..rows {
+            html.push_str("<tr>");
+            let mut c = 0;
+            while c < cols {
+                let last_row = ri + 1 == rows;
+                let span = if c + 1 < cols && r.below(4) == 0 && !(last_row && (!single[c] || !single[c + 1])) { 2 } else { 1 };
+                let tok = format!("{}{}zw", (b'a' + ri as u8) as char, (b'p' + c as u8) as char);
+                let extra = match r.below(4) { 0 => " more words here", 1 => " zz", _ => "" };
+                if span == 1 { single[c] = true; }
+                html.push_str(&format!("<td{}>{}{}</td>", if span > 1 { format!(" colspan={}", span) } else { String::new() }, tok, extra));
+                cells.push((ri, c, span, tok));
+                c += span;
+            }
+            html.push_str("</tr>");
+        }
+        html.push_str("</table>");
+        if !single.iter().all(|b| *b) { continue; }
+        for w in 6..=40usize {
+            let input = format!("width={} html={}", w, html);
+            rep.case(&input);
+            let h = html.clone();
+            let out = match panic::catch_unwind(move || config::plain().string_from_read(h.as_bytes(), w)) { Ok(Ok(s)) => s, Ok(Err(_)) => continue, Err(_) => { rep.found(&input, "panic"); continue; } };
+            if out.contains('/') { continue; }      // stacked
+            let lines: Vec<Vec<char>> = out.lines().map(|l| columns(l)).collect();
+            if lines.is_empty() { continue; }
+            // row bands: lines between rules
+            let mut bands: Vec<Vec<usize>> = vec![]; let mut cur: Vec<usize> = vec![];
+            for (i, l) in lines.iter().enumerate() { if !l.is_empty() && l.iter().all(|c| is_rule(*c)) { if !cur.is_empty() { bands.push(std::mem::take(&mut cur)); } } else { cur.push(i); } }
+            if !cur.is_empty() { bands.push(cur); }
+            if bands.len() != rows { rep.found(&input, &format!("{} row bands for {} rows; output {:?}", bands.len(), rows, out)); continue; }
+            // column boundaries: the union of bar positions
+            let mut bars: Vec<usize> = vec![];
+            for l in &lines { for (x, ch) in l.iter().enumerate() { if *ch == '\u{2502}' && !bars.contains(&x) { bars.push(x); } } }
+            bars.sort();
+            if bars.len() != cols - 1 { rep.found(&input, &format!("{} distinct bar positions {:?} for {} columns; output {:?}", bars.len(), bars, cols, out)); continue; }
+            let left = |c: usize| -> isize { if c == 0 { -1 } else { bars[c - 1] as isize } };
+            let right = |c: usize| -> isize { if c + 1 >= cols { isize::MAX } else { bars[c] as isize } };
+            let mut bad = false;
+            for (ri, c, span, tok) in &cells {
+                let t: Vec<char> = tok.chars().collect();
+                let mut seen = 0;
+                for (li, l) in lines.iter().enumerate() {
+                    // occurrences of the token's first characters (the token may be hard-wrapped: look for its first min(3, available) characters)
+                    let k = t.len().min(3);
+                    let mut x = 0;
+                    while x + k <= l.len() {
+                        if l[x..x + k] == t[..k] {
+                            seen += 1;
+                            if !bands[*ri].contains(&li) { rep.found(&input, &format!("token {} of row {} appears on line {}, outside its row band {:?}; output {:?}", tok, ri, li, bands[*ri], out)); bad = true; }
+                            else if (x as isize) <= left(*c) || ((x + k - 1) as isize) >= right(c + span - 1) { rep.found(&input, &format!("token {} (columns {}..{}) at x={} is not between the bars {} and {}; output {:?}", tok, c, c + span - 1, x, left(*c), right(c + span - 1), out)); bad = true; }
+                        }
+                        x += 1;
+                    }
+                    if bad { break; }
+                }
+                if bad { break; }
+                // a column narrower than 3 may cut the token earlier than its first three characters; otherwise it must be there
+                if seen == 0 && w >= 4 * cols + 8 { rep.found(&input, &format!("token {} not found; output {:?}", tok, out)); break; }
+            }
+        }
+    }
+    rep.finish();
+}
+
+// ------------------------------------------------------------------------------------------------------------------------------
+// C07 compositionality: a prefixed block is its content rendered at width - prefix with the prefix in front of every line.
+pub fn c07_compose() {
+    let ndoc = if thorough() { 500u32 } else { 120u32 };
+    let mut rep = Report::new("c07_compose", &format!("{} seeded block sequences X (the table-free grammar of bnd_doc) inside <blockquote>, <ul><li>, <ol start=7><li> and <dl><dd>, widths 8..=40 step 2; plain decorator without link footnotes:         when both render, the lines of the wrapped document are the lines of X rendered at width - prefix width with the prefix (quote mark; bullet / number then blank indentation; two blanks) in front of every line", ndoc));
+    let mut r = Lcg(0x1f83d9abfb41bd6b ^ seed());
+    for _ in 0..ndoc {
+        let mut tok = 0;
+        let mut x = String::new();
+        for _ in 0..1 + r.below(2) { x.push_str(&gen_block(&mut r, &mut tok, 1)); }
+        for (open, close, first, cont) in [("<blockquote>", "</blockquote>", "> ", "> "), ("<ul><li>", "</li></ul>", "* ", "  "), ("<ol start=\"7\"><li>", "</li></ol>", "7. ", "   "), ("<dl><dd>", "</dd></dl>", "  ", "  ")] {
+            let html = format!("{}{}{}", open, x, close);
+            for w in (8..=40usize).step_by(2) {
+                let pw = first.len();
+                let input = format!("width={} html={}", w, html);
+                rep.case(&input);
+                let (h1, h2) = (html.clone(), x.clone());
+                let outer = match panic::catch_unwind(move || config::plain().link_footnotes(false).string_from_read(h1.as_bytes(), w)) { Ok(Ok(s)) => s, Ok(Err(_)) => continue, Err(_) => { rep.found(&input, "panic"); continue; } };
+                let inner = match panic::catch_unwind(move || config::plain().link_footnotes(false).string_from_read(h2.as_bytes(), w - pw)) { Ok(Ok(s)) => s, _ => continue };
+                let want: Vec<String> = inner.lines().enumerate().map(|(i, l)| format!("{}{}", if i == 0 { first } else { cont }, l)).collect();
+                let got: Vec<String> = outer.lines().map(|l| l.to_string()).collect();
+                if got != want { rep.found(&input, &format!("lines {:?}, but the content at width {} with the prefix in front is {:?}", got, w - pw, want)); }
             }
         }
     }
